@@ -45,6 +45,12 @@ def rule_det1(ctx):
                 ctx.bad("DET-1", "%s:for-loop" % hq.last(b["def_path"], 2), ctx.site(b, n), "a hash container is iterated by a for loop")
             if k == "MethodCall" and n["method"] in ("extend", "from_iter", "collect") and any(is_hash(a.get("ty", "")) for a in n.get("args", [])):
                 ctx.bad("DET-1", "%s:extend-from-hash" % hq.last(b["def_path"], 2), ctx.site(b, n), "a collection is filled from a hash container")
+            elif k in ("Call", "MethodCall") and any(is_hash(strip(a).get("ty", "")) for a in n.get("args", [])):
+                # a hash container handed to any other function by value / reference: its iteration order can leak (Vec::from_iter(set), chain(set), ..)
+                c = callee_generic(n) or ""
+                if not c.endswith(("::len", "::is_empty", "mem::drop", "::contains", "::contains_key", "::get", "::eq", "::ne")) and not c.endswith("IntoIterator::into_iter"):
+                    ctx.bad("DET-1", "%s:hash-argument:%s" % (hq.last(b["def_path"], 2), hq.last(c, 2)), ctx.site(b, n),
+                            "a hash container is passed to %s: whatever it builds inherits an unspecified order (a later sort must be total to repair that)" % (hq.last(c, 2) or "a function"))
     # no floor: replacing a hash container by an ordered one lowers this count and is an improvement, not a loss of coverage.
     ctx.count("hash_container_uses", n_hash)
     ctx.add("DET-1", "detector-self-check", is_hash("std::collections::HashMap<K, V>") and is_hash("std::collections::HashSet<T>") and not is_hash("indexmap::IndexMap<K, V>"), "",
@@ -183,4 +189,86 @@ def rule_rw3(ctx):
     ctx.obls.extend(sub.obls)
 
 
-RULES = [rule_det1, rule_det2, rule_det3, rule_fixpoint, rule_rw3]
+LOOP_TABLE = {
+    "convenience::apply::Apply::apply_fixpoint": "the fixpoint iteration itself: it ends when a pass changes nothing (FIXPOINT:* decides its shape; that every portfolio reaches a fixpoint is not decided)",
+}
+PROGRESS_CALL = re.compile(r"::(next|next_back|pop|pop_front|pop_back|recv|recv_timeout|try_recv|remove|swap_remove|shift_remove|drain|truncate|read_line|read|nth|advance_by)$")
+
+
+def rule_loop_progress(ctx):
+    """LOOP-PROGRESS (MIR): in every loop of the crate, every cycle from the loop header back to itself executes a progress step - an
+    iterator / queue advance (`next`, `pop`, `recv`, ..) or a counter update (checked add / sub).  A cycle without one re-tests the same state
+    forever (the `while taken.contains(&candidate)` searches for fresh names are the instances that matter here)."""
+    from .. import callgraph
+    fx = ctx.facts
+    cg = callgraph.CallGraph(fx)
+    n_loops = 0
+    for dp, m in sorted(cg.mir.items()):
+        if not m["file"].startswith("src/") or "::tests::" in dp:
+            continue
+        blocks = {b["id"]: b for b in m["blocks"] if not b.get("cleanup")}
+        succ = {i: [s_ for s_ in (b["term"].get("succ") or []) if s_ in blocks] for i, b in blocks.items()}
+        idom = {i: b.get("idom") for i, b in blocks.items()}
+        pred = {}
+        for a, ss in succ.items():
+            for t in ss:
+                pred.setdefault(t, []).append(a)
+
+        def dominates(a, b_):
+            cur, seen = b_, set()
+            while cur is not None and cur not in seen:
+                if cur == a:
+                    return True
+                seen.add(cur)
+                nxt = idom.get(cur)
+                if nxt == cur:
+                    break
+                cur = nxt
+            return False
+
+        def progress(b_):
+            for st in b_.get("stmts", []):
+                if re.search(r"(Add|Sub)WithOverflow\(|\bAdd\(|\bSub\(", st.get("rv", "")):
+                    return True
+            t = b_["term"]
+            return t.get("t") == "Call" and bool(PROGRESS_CALL.search(t.get("callee_res") or t.get("callee") or ""))
+        headers = {}
+        for u, ss in succ.items():
+            for h in ss:
+                if dominates(h, u):
+                    headers.setdefault(h, []).append(u)
+        for h, latches in sorted(headers.items()):
+            n_loops += 1
+            body = {h} | set(latches)
+            todo = list(latches)
+            while todo:
+                x = todo.pop()
+                if x == h:
+                    continue
+                for p_ in pred.get(x, []):
+                    if p_ not in body:
+                        body.add(p_)
+                        todo.append(p_)
+            stuck = False
+            if not progress(blocks[h]):
+                seen, todo = {h}, [h]
+                while todo and not stuck:
+                    x = todo.pop()
+                    for s_ in succ[x]:
+                        if s_ == h and x in body:
+                            stuck = True
+                            break
+                        if s_ in body and s_ not in seen and not progress(blocks[s_]):
+                            seen.add(s_)
+                            todo.append(s_)
+            owner = dp.split("::{closure")[0]
+            if stuck and owner in LOOP_TABLE:
+                ctx.ok("LOOP-PROGRESS", "%s:exempt" % hq.last(owner, 2), "%s:%s" % (m["file"], blocks[h]["term"].get("line")), LOOP_TABLE[owner], nontrivial=False)
+            elif stuck:
+                ctx.bad("LOOP-PROGRESS", "%s" % hq.last(owner, 2), "%s:%s" % (m["file"], blocks[h]["term"].get("line")),
+                        "a cycle of this loop makes no progress: no iterator / queue advance and no counter update between two tests of the loop condition")
+    ctx.count("loops_analysed", n_loops)
+    ctx.add("LOOP-PROGRESS", "loops-found", n_loops >= 20, "", "%d loops analysed in the crate's MIR" % n_loops, nontrivial=False)
+
+
+RULES = [rule_det1, rule_det2, rule_det3, rule_fixpoint, rule_rw3, rule_loop_progress]
